@@ -313,7 +313,18 @@ U17 = universe("U17", 5, [
 ], base=["(g (f4 1 2 3 4))"],
    note="two generators on different orbits broken by one shrink; 4 names per equation, pool 5")
 
-ALL = {"U17": U17, "U16": U16, "U15": U15, "U14": U14, "U13": U13, "U12": U12, "U11": U11, "U10": U10, "U9": U9, "U8": U8, "U7": U7, "U1": U1, "U2": U2, "U3": U3, "U4": U4, "U5": U5, "U6": U6}
+# U18 "wide node over a symmetric child": a ternary e-node whose three children share three slots, two of them invocations of a
+# class that becomes symmetric (seeded C11n: the canonical group variant of nodes with more than two children chosen by comparing
+# the user's slot NAMES - the same term under another relative order of its names gets another shape, lookup misses it)
+U18 = universe("U18", 4, [
+    ("(f 1 2)", "(f 2 1)"),
+    ("(ite (f 1 2) (f 2 3) (v 1))", "(g (f3 1 2 3))"),
+    ("(ite (f 1 2) (f 2 3) (v 3))", "(g (f3 3 2 1))"),
+], base=["(ite (f 1 2) (f 2 3) (v 1))", "(ite (f 2 1) (f 3 2) (v 1))", "(ite (f 1 2) (f 2 3) (v 3))", "(g (ite (f 1 2) (f 2 3) (v 1)))",
+         "(ite (f 1 2) (v 3) (f 3 2))"],
+   note="three children sharing three slots, child class symmetric")
+
+ALL = {"U18": U18, "U17": U17, "U16": U16, "U15": U15, "U14": U14, "U13": U13, "U12": U12, "U11": U11, "U10": U10, "U9": U9, "U8": U8, "U7": U7, "U1": U1, "U2": U2, "U3": U3, "U4": U4, "U5": U5, "U6": U6}
 
 if __name__ == "__main__":
     out = os.path.dirname(os.path.abspath(__file__))
